@@ -2,6 +2,8 @@ import DryocVerif.Model.SecretStream
 import DryocVerif.Proofs.SecretStream
 import DryocVerif.Proofs.SecretStreamExtra
 import DryocVerif.Proofs.Inst
+import DryocVerif.Proofs.RawExtra
+import DryocVerif.Proofs.StreamPushRawExtra
 /-
 C03 — secretstream: push/pull round trip with state lockstep through every rekey branch,
 rejected pulls leave everything untouched, counters never repeat inside a key epoch,
@@ -14,6 +16,19 @@ Hypotheses (the only ones used anywhere):
   `StateWF s` : `s.k.length = 32` and `s.nonce.length = 12`
 Every theorem is for every `P`, every state (every counter value, `ff ff ff ff` included),
 every message, AD and tag byte.  Where a hypothesis is not needed it is simply not assumed.
+
+WHAT IS NOT A THEOREM HERE.  The property also says "every ciphertext and both states equal those of
+libsodium".  That half is carried by NO theorem of this file: there is no separate `Spec` for secretstream
+(no RFC; libsodium's C is the reference), so the Lean model `push` / `pull` / `rekey` is compared with
+libsodium by the differential run only (model driver vs. the Rust crate vs. libsodium on generated
+histories).  The theorems below are about the model (and, through `C04.pushRaw_eq_push` /
+`C04.pullRaw_eq_pull`, about the statement-by-statement transcription of the Rust); the primitives
+ChaCha20 / HChaCha20 / Poly1305 are parameters here and are tied to their RFC specs in C07 / C01.
+
+SIZE LIMIT.  `push` / `pull` / `objPush` / `objPull` are total models without the ChaCha20 key-stream limit;
+the Rust code panics for the 64 message lengths `64·(2^32 − 3) < len ≤ 64·(2^32 − 2)` (section 14).  Theorems
+that speak of "any message" are about the total model; the `…Checked` / `…Raw` theorems of section 14 carry
+the length hypothesis under which they are theorems about the code.
 -/
 namespace DryocVerif.Properties.C03
 open DryocVerif DryocVerif.Model.Utils DryocVerif.Model.SecretStream
@@ -42,8 +57,9 @@ theorem pull_push (P : Prims) (hP : WF P) (s : State) (m ad : Bytes) (tag : UInt
 
 /-- The guard-free model function `push` (the Rust function WITHOUT its `MESSAGEBYTES_MAX` comparison)
 always succeeds on a buffer of the right size, with a ciphertext 17 bytes longer.  For the Rust function
-itself this holds only for messages of at most `MESSAGEBYTES_MAX` = 274877906816 bytes: see
-`pushChecked_ok` / `pushChecked_too_long` in section 14. -/
+itself this holds only for messages of at most `STREAM_BODY_MAX` = 64·(2^32 − 3) = 274877906752 bytes: above
+that it panics (64 lengths) or returns `Err` — see `pushChecked_ok`, `pushChecked_ok_iff`,
+`push_panics_near_max` and `pushChecked_too_long` in section 14. -/
 theorem push_ok (P : Prims) (hP : WF P) (s : State) (m ad : Bytes) (tag : UInt8) :
     ∃ c s', push P s (m.length + 17) m ad tag = .ok (c, s') ∧ c.length = m.length + 17 := by
   have h := Proofs.SecretStream.push_eq P s m ad tag
@@ -130,10 +146,12 @@ def sent : List Op → List (Bytes × UInt8)
   | .rekey :: ops => sent ops
   | .push m _ tag :: ops => (m, tag) :: sent ops
 
-/-- For histories of **any** length and shape (messages of any size, any tag bytes, explicit rekeys,
-automatic rekeys by tag bit or by counter wrap): starting from equal states, the pull side accepts
-everything, returns exactly the pushed `(message, tag)` list, and ends in the same state as the
-push side; nothing of the history is dropped on the wire. -/
+/-- For histories of **any** length and shape (any tag bytes, explicit rekeys, automatic rekeys by tag bit
+or by counter wrap): starting from equal states, the pull side accepts everything, returns exactly the
+pushed `(message, tag)` list, and ends in the same state as the push side; nothing of the history is
+dropped on the wire.  This is a theorem about the TOTAL MODEL (`objPush` / `objPull`), which has no size
+limit; for the code as written it holds for messages of at most `STREAM_BODY_MAX` = 64·(2^32 − 3) bytes each —
+`historyChecked_lockstep` (section 14) — and fails above (`historyChecked_breaks_near_max`). -/
 theorem history_lockstep (P : Prims) (hP : WF P) (ops : List Op) (s : State) :
     runPull P s (runPush P s ops).2 = some ((runPush P s ops).1, sent ops) ∧
     (runPush P s ops).2.length = ops.length := by
@@ -652,11 +670,109 @@ theorem advance_rekey_exact (P : Prims) (hP : WF P) (s : State) (hs : StateWF s)
     (advance P s mac tag).counter = [1, 0, 0, 0] :=
   Proofs.SecretStream.advance_rekey_exact P hP s hs mac tag hrk
 
+/-! ### 13a. delivery scenarios with the states named: skip, swap
+
+`s0 --push c1--> s1 --push c2--> s2`, no REKEY bit in the two tag bytes and the counter at least two steps
+away from the wrap (otherwise a rekey intervenes and the KEY changes, `advance_rekey_exact`).  The facts about
+the states come from `counters_distinct_within_epoch` (stated there for `advanceRun`, here for the states of
+two `advance` steps / two pushes by name). -/
+
+/-- two `advance` steps inside a key epoch, states named: same key throughout, three pairwise different
+nonces (counters `c`, `c+1`, `c+2`) — in particular the nonce after a SKIP of one message (`s2` vs `s0`) and
+after one message (`s1` vs `s0`) is not the original one -/
+theorem skip_states (P : Prims) (s0 : State) (hs : StateWF s0) (mac1 mac2 : Bytes) (t1 t2 : UInt8)
+    (hn1 : ¬ (t1.toNat &&& TAG_REKEY = TAG_REKEY)) (hn2 : ¬ (t2.toNat &&& TAG_REKEY = TAG_REKEY))
+    (hk : le s0.counter + 2 < 2 ^ 32) :
+    let s1 := advance P s0 mac1 t1
+    let s2 := advance P s1 mac2 t2
+    s1.k = s0.k ∧ s2.k = s0.k ∧
+    s1.nonce ≠ s0.nonce ∧ s2.nonce ≠ s0.nonce ∧ s2.nonce ≠ s1.nonce ∧
+    s1.counter = toLE 4 (le s0.counter + 1) ∧ s2.counter = toLE 4 (le s0.counter + 2) := by
+  intro s1 s2
+  have hnt : ∀ p ∈ [(mac1, t1), (mac2, t2)], ¬ (p.2.toNat &&& TAG_REKEY = TAG_REKEY) := by
+    intro p hp
+    simp only [List.mem_cons, List.not_mem_nil, or_false] at hp
+    rcases hp with rfl | rfl
+    · exact hn1
+    · exact hn2
+  obtain ⟨hA, hB⟩ := counters_distinct_within_epoch P s0 hs [(mac1, t1), (mac2, t2)] hnt (by simpa using hk)
+  have e0 : advanceRun P s0 (List.take 0 [(mac1, t1), (mac2, t2)]) = s0 := rfl
+  have e1 : advanceRun P s0 (List.take 1 [(mac1, t1), (mac2, t2)]) = s1 := rfl
+  have e2 : advanceRun P s0 (List.take 2 [(mac1, t1), (mac2, t2)]) = s2 := rfl
+  have a1 := hA 1 (by simp)
+  have a2 := hA 2 (by simp)
+  have b10 := (hB 1 0 (by simp) (by simp) (by decide)).2
+  have b20 := (hB 2 0 (by simp) (by simp) (by decide)).2
+  have b21 := (hB 2 1 (by simp) (by simp) (by decide)).2
+  rw [e1] at a1 b10 b21
+  rw [e2] at a2 b20 b21
+  rw [e0] at b10 b20
+  exact ⟨a1.2.1, a2.2.1, b10, b20, b21, a1.2.2, a2.2.2⟩
+
+/-- **SKIP.**  The sender pushes `c1` at `s0` and `c2` at `s1`; `c1` is dropped on the wire and the receiver,
+still at `s0`, is handed `c2`.  Then: `c2` was authenticated under the one-time key of position
+`(s0.k, s1.nonce)`, the receiver checks it under the key of position `(s0.k, s0.nonce)`, the key is the
+same and `s1.nonce ≠ s0.nonce`; and if `pull` accepts nevertheless, the authenticator of `c2` is a Poly1305
+tag under BOTH one-time keys — of the string the sender built and of the string the receiver builds.  (That
+this does not happen is the MAC's job: for the toy MAC of section 10 it does happen.) -/
+theorem skip_delivery (P : Prims) (hP : WF P) (s0 : State) (hs : StateWF s0)
+    (m1 ad1 : Bytes) (t1 : UInt8) (c1 : Bytes) (s1 : State)
+    (h1 : push P s0 (m1.length + 17) m1 ad1 t1 = .ok (c1, s1))
+    (m2 ad2 : Bytes) (t2 : UInt8) (c2 : Bytes) (s2 : State)
+    (h2 : push P s1 (m2.length + 17) m2 ad2 t2 = .ok (c2, s2))
+    (hn1 : ¬ (t1.toNat &&& TAG_REKEY = TAG_REKEY)) (hn2 : ¬ (t2.toNat &&& TAG_REKEY = TAG_REKEY))
+    (hk : le s0.counter + 2 < 2 ^ 32) :
+    s1.k = s0.k ∧ s2.k = s0.k ∧ s1.nonce ≠ s0.nonce ∧ s2.nonce ≠ s0.nonce ∧ s2.nonce ≠ s1.nonce ∧
+    macKey P s1 = P.chacha s0.k s1.nonce 0 32 ∧ macKey P s0 = P.chacha s0.k s0.nonce 0 32 ∧
+    ∀ (ad' buf : Bytes) (tagv : UInt8) (n : Nat), (pull P s0 buf tagv c2 ad').res = .ok n →
+      ctMac c2 = P.mac (macKey P s1) (macInput ad2 (pullBlock P s1 c2) (ctBody c2)) ∧
+      ctMac c2 = P.mac (macKey P s0) (macInput ad' (pullBlock P s0 c2) (ctBody c2)) := by
+  have e1 : s1 = advance P s0 (ctMac c1) t1 := (push_parts P hP s0 m1 ad1 t1 c1 s1 h1).2.2.2
+  have e2 : s2 = advance P s1 (ctMac c2) t2 := (push_parts P hP s1 m2 ad2 t2 c2 s2 h2).2.2.2
+  have hst := skip_states P s0 hs (ctMac c1) (ctMac c2) t1 t2 hn1 hn2 hk
+  simp only at hst
+  rw [← e1, ← e2] at hst
+  obtain ⟨k1, k2, n10, n20, n21, _, _⟩ := hst
+  refine ⟨k1, k2, n10, n20, n21, ?_, rfl, ?_⟩
+  · show P.chacha s1.k s1.nonce 0 32 = _
+    rw [k1]
+  · intro ad' buf tagv n hacc
+    exact (accept_at_state_imp_mac_eq P hP s1 m2 ad2 t2 c2 s2 h2 s0 ad' buf tagv n hacc).2
+
+/-- **SWAP.**  The wire delivers `c2` before `c1`.  The receiver at `s0` is handed `c2` (a position mismatch as
+in `skip_delivery`); when it rejects it, NOTHING has moved (`failed_pull_preserves`): it is still at `s0`,
+accepts `c1` there with the sender's message, tag byte and successor state `s1`, and at `s1` the re-delivered
+`c2` is accepted with the sender's `s2`.  A swap therefore costs a rejected pull and a re-delivery, never a
+desynchronisation. -/
+theorem swap_delivery (P : Prims) (hP : WF P) (s0 : State)
+    (m1 ad1 : Bytes) (t1 : UInt8) (c1 : Bytes) (s1 : State)
+    (h1 : push P s0 (m1.length + 17) m1 ad1 t1 = .ok (c1, s1))
+    (m2 ad2 : Bytes) (t2 : UInt8) (c2 : Bytes) (s2 : State)
+    (h2 : push P s1 (m2.length + 17) m2 ad2 t2 = .ok (c2, s2))
+    (buf : Bytes) (tagv : UInt8) (ad' : Bytes)
+    (hrej : (pull P s0 buf tagv c2 ad').res = .err)
+    (buf1 : Bytes) (tagv1 : UInt8) (hb1 : m1.length ≤ buf1.length)
+    (buf2 : Bytes) (tagv2 : UInt8) (hb2 : m2.length ≤ buf2.length) :
+    (pull P s0 buf tagv c2 ad').st = s0 ∧ (pull P s0 buf tagv c2 ad').buf = buf ∧
+    pull P (pull P s0 buf tagv c2 ad').st buf1 tagv1 c1 ad1
+      = ⟨.ok m1.length, m1 ++ buf1.drop m1.length, t1, s1⟩ ∧
+    pull P s1 buf2 tagv2 c2 ad2 = ⟨.ok m2.length, m2 ++ buf2.drop m2.length, t2, s2⟩ := by
+  obtain ⟨hst, hbuf, _⟩ := failed_pull_preserves P s0 buf tagv c2 ad' hrej
+  refine ⟨hst, hbuf, ?_, pull_push P hP s1 m2 ad2 t2 c2 s2 h2 buf2 tagv2 hb2⟩
+  rw [hst]
+  exact pull_push P hP s0 m1 ad1 t1 c1 s1 h1 buf1 tagv1 hb1
+
 /-! ### 14. the `MESSAGEBYTES_MAX` guards of the Rust functions
 
 `push` / `pull` of the model omit the comparisons with
 `CRYPTO_SECRETSTREAM_XCHACHA20POLY1305_MESSAGEBYTES_MAX`; `pushChecked` / `pullChecked` have them.  Below
-the bound they are the same functions, so every theorem above transfers; above it the Rust returns `Err`. -/
+the bound they are the same functions, so every theorem above transfers; above it the Rust returns `Err`.
+
+Second review round: the guards are NOT the whole story.  The ChaCha20 crate (chacha20 0.9.1 / cipher 0.4.4)
+hands out `u32::MAX − 2` blocks after `seek(128)`, i.e. `STREAM_BODY_MAX = 64·(2^32 − 3)` bytes, 64 fewer than
+`MESSAGEBYTES_MAX`; in between `apply_keystream` panics.  `pushChecked` / `pullChecked` do not model that;
+`pushRaw` / `pullRaw` / `objPushRaw` / `objPullCode` (`Model/SecretStreamRaw.lean`) do.  `pushChecked_ok`,
+`pushChecked_ok_iff`, `push_panics_near_max`, `historyChecked_lockstep` below are stated for them. -/
 
 /-- the constant: `min(2^64 − 1 − 17, 64·(2^32 − 2))` = 274877906816 (64-bit target) -/
 theorem MESSAGEBYTES_MAX_eq : MESSAGEBYTES_MAX = 274877906816 :=
@@ -682,15 +798,16 @@ theorem pullChecked_too_long (P : Prims) (s : State) (buf : Bytes) (tagv : UInt8
     (h : MESSAGEBYTES_MAX < ct.length) : pullChecked P s buf tagv ct ad = ⟨.err, buf, tagv, s⟩ :=
   Proofs.SecretStream.pullChecked_too_long P s buf tagv ct ad h
 
-/-- `push_ok`, honestly: the Rust push succeeds on a buffer of the right size exactly for messages of at
-most `MESSAGEBYTES_MAX` bytes -/
-theorem pushChecked_ok (P : Prims) (hP : WF P) (s : State) (m ad : Bytes) (tag : UInt8)
+/-- the guard-only model `pushChecked` (the `MESSAGEBYTES_MAX` comparison, but no key-stream limit) succeeds on a
+buffer of the right size for messages of at most `MESSAGEBYTES_MAX` bytes.  NOT a statement about the code
+above `STREAM_BODY_MAX`: see `pushChecked_ok`. -/
+theorem pushChecked_model_ok (P : Prims) (hP : WF P) (s : State) (m ad : Bytes) (tag : UInt8)
     (hm : m.length ≤ MESSAGEBYTES_MAX) :
     ∃ c s', pushChecked P s (m.length + 17) m ad tag = .ok (c, s') ∧ c.length = m.length + 17 := by
   rw [pushChecked_eq_push P s _ m ad tag hm]
   exact push_ok P hP s m ad tag
 
-theorem pushChecked_ok_iff (P : Prims) (hP : WF P) (s : State) (m ad : Bytes) (tag : UInt8) :
+theorem pushChecked_model_ok_iff (P : Prims) (hP : WF P) (s : State) (m ad : Bytes) (tag : UInt8) :
     (∃ c s', pushChecked P s (m.length + 17) m ad tag = .ok (c, s')) ↔ m.length ≤ MESSAGEBYTES_MAX := by
   constructor
   · rintro ⟨c, s', h⟩
@@ -699,8 +816,45 @@ theorem pushChecked_ok_iff (P : Prims) (hP : WF P) (s : State) (m ad : Bytes) (t
     rw [pushChecked_too_long P s _ m ad tag (by omega)] at h
     cases h
   · intro hm
-    obtain ⟨c, s', h, _⟩ := pushChecked_ok P hP s m ad tag hm
+    obtain ⟨c, s', h, _⟩ := pushChecked_model_ok P hP s m ad tag hm
     exact ⟨c, s', h⟩
+
+/-- the two bounds: the crate's key-stream limit is one 64-byte block below the constant the source checks -/
+theorem STREAM_BODY_MAX_eq : STREAM_BODY_MAX = 274877906752 ∧ MESSAGEBYTES_MAX = STREAM_BODY_MAX + 64 ∧
+    MESSAGEBYTES_MAX_RAW = MESSAGEBYTES_MAX := by decide
+
+/-- `push_ok`, honestly (corrected after the second review): the Rust `push`, statement by statement
+(`pushRaw`, any content of the caller's ciphertext buffer `buf` of the right size), succeeds for every message
+of at most `STREAM_BODY_MAX = 64·(2^32 − 3)` bytes, with a ciphertext 17 bytes longer, and agrees with both
+models.  (The earlier version claimed this up to `MESSAGEBYTES_MAX`; the ChaCha20 crate refuses the last
+block of the key stream.) -/
+theorem pushChecked_ok (P : Prims) (hP : WF P) (s : State) (m ad : Bytes) (tag : UInt8)
+    (hm : m.length ≤ STREAM_BODY_MAX) (buf : Bytes) (hb : buf.length = m.length + 17) :
+    ∃ c s', pushRaw P s buf m ad tag = .ok (c, s') ∧
+      pushChecked P s (m.length + 17) m ad tag = .ok (c, s') ∧
+      push P s (m.length + 17) m ad tag = .ok (c, s') ∧ c.length = m.length + 17 := by
+  obtain ⟨c, s', h, hl⟩ := push_ok P hP s m ad tag
+  have hB := STREAM_BODY_MAX_eq
+  have hM := MESSAGEBYTES_MAX_eq
+  refine ⟨c, s', ?_, ?_, h, hl⟩
+  · rw [Proofs.SecretStream.pushRaw_eq_push P hP s buf m ad tag hm, hb]; exact h
+  · rw [pushChecked_eq_push P s _ m ad tag (by omega)]; exact h
+
+/-- … and exactly for those: on a buffer of the right size the Rust `push` returns `Ok` iff the message has at
+most `STREAM_BODY_MAX` bytes (above: a panic for 64 lengths, `push_panics_near_max`, then `Err`) -/
+theorem pushChecked_ok_iff (P : Prims) (hP : WF P) (s : State) (m ad : Bytes) (tag : UInt8)
+    (buf : Bytes) (hb : buf.length = m.length + 17) :
+    (∃ c s', pushRaw P s buf m ad tag = .ok (c, s')) ↔ m.length ≤ STREAM_BODY_MAX :=
+  Proofs.SecretStream.pushRaw_ok_iff P hP s buf m ad tag hb
+
+/-- the 64 message lengths between the crate's limit and the source's guard: the Rust `push` panics
+(`C04.pushRaw_panics_near_max`; latent defect at ≈ 256 GiB, not demonstrable on this machine) -/
+theorem push_panics_near_max (P : Prims) (s : State) (m ad : Bytes) (tag : UInt8) (buf : Bytes)
+    (hb : buf.length = m.length + 17) (h1 : STREAM_BODY_MAX < m.length) (h2 : m.length ≤ MESSAGEBYTES_MAX) :
+    pushRaw P s buf m ad tag = .panic ∧ objPushRaw P s m ad tag = .panic := by
+  have hM : MESSAGEBYTES_MAX_RAW = MESSAGEBYTES_MAX := by decide
+  exact ⟨Proofs.SecretStream.pushRaw_panics_near_max P s buf m ad tag hb h1 (by omega),
+    Proofs.SecretStream.objPushRaw_panics_near_max P s m ad tag h1 (by omega)⟩
 
 /-- a rejected guarded pull leaves state, message buffer and tag variable as they were -/
 theorem failed_pullChecked_preserves (P : Prims) (s : State) (m : Bytes) (tagv : UInt8) (ct ad : Bytes)
@@ -722,16 +876,92 @@ theorem pullChecked_pushChecked (P : Prims) (hP : WF P) (s : State) (m ad : Byte
   rw [pullChecked_eq_pull P s buf tagv c ad (by omega)]
   exact pull_push P hP s m ad tag c s' h buf tagv hb
 
-/-- The bound cannot be relaxed to the message length: the Rust `pull` compares `ciphertext.len()` (not
-`mlen` as libsodium does) with `MESSAGEBYTES_MAX`, so a message of more than `MESSAGEBYTES_MAX − 17` and at
-most `MESSAGEBYTES_MAX` bytes is pushed successfully and its genuine ciphertext is then REJECTED by `pull`
-(17 message lengths just below 256 GiB; documented deviation from libsodium, not a safety issue). -/
+/-- A statement about the GUARD-ONLY models `pushChecked` / `pullChecked`: the Rust `pull` compares
+`ciphertext.len()` (not `mlen` as libsodium does) with `MESSAGEBYTES_MAX`, so in those models a message of more
+than `MESSAGEBYTES_MAX − 17` and at most `MESSAGEBYTES_MAX` bytes is pushed and its genuine ciphertext is then
+rejected by `pull`.  In the CODE this scenario does not arise: those 17 lengths lie inside the 64-length window
+in which `push` itself panics — `pushed_but_not_pullable_not_pushable` below.  What remains true of the code is
+the deviation from libsodium in the guard (`ciphertext.len()` instead of `mlen`), visible only above 256 GiB. -/
 theorem pushed_but_not_pullable (P : Prims) (hP : WF P) (s : State) (m ad : Bytes) (tag : UInt8)
     (h1 : MESSAGEBYTES_MAX < m.length + 17) (h2 : m.length ≤ MESSAGEBYTES_MAX) :
     ∃ c s', pushChecked P s (m.length + 17) m ad tag = .ok (c, s') ∧
       ∀ buf tagv, pullChecked P s buf tagv c ad = ⟨.err, buf, tagv, s⟩ := by
-  obtain ⟨c, s', h, hl⟩ := pushChecked_ok P hP s m ad tag h2
+  obtain ⟨c, s', h, hl⟩ := pushChecked_model_ok P hP s m ad tag h2
   exact ⟨c, s', h, fun buf tagv => pullChecked_too_long P s buf tagv c ad (by omega)⟩
+
+/-- … the lengths of `pushed_but_not_pullable` are not even pushable in the code: `push` panics on them -/
+theorem pushed_but_not_pullable_not_pushable (P : Prims) (s : State) (m ad : Bytes) (tag : UInt8) (buf : Bytes)
+    (hb : buf.length = m.length + 17)
+    (h1 : MESSAGEBYTES_MAX < m.length + 17) (h2 : m.length ≤ MESSAGEBYTES_MAX) :
+    pushRaw P s buf m ad tag = .panic := by
+  have hB := STREAM_BODY_MAX_eq
+  exact (push_panics_near_max P s m ad tag buf hb (by omega) h2).1
+
+/-! ### 14a. histories through the statement-by-statement functions -/
+
+/-- `runPush` with `DryocStream::push` as written (`objPushRaw`): stops at the first push that is not `Ok` -/
+def runPushRaw (P : Prims) : State → List Op → State × List Wire
+  | s, [] => (s, [])
+  | s, .rekey :: ops => let r := runPushRaw P (rekey P s) ops; (r.1, .rekey :: r.2)
+  | s, .push m ad tag :: ops =>
+    match objPushRaw P s m ad tag with
+    | .ok (c, s') => let r := runPushRaw P s' ops; (r.1, .msg c ad :: r.2)
+    | _ => (s, [])
+
+/-- `runPull` with `DryocStream::pull` as written (`objPullCode`) -/
+def runPullRaw (P : Prims) : State → List Wire → Option (State × List (Bytes × UInt8))
+  | s, [] => some (s, [])
+  | s, .rekey :: ws => runPullRaw P (rekey P s) ws
+  | s, .msg ct ad :: ws =>
+    match objPullCode P s ct ad with
+    | (.ok mt, s') => (runPullRaw P s' ws).map fun r => (r.1, mt :: r.2)
+    | _ => none
+
+/-- every pushed message of the history has at most `STREAM_BODY_MAX = 64·(2^32 − 3)` bytes -/
+def SizesOk (ops : List Op) : Prop := ∀ m ad tag, Op.push m ad tag ∈ ops → m.length ≤ STREAM_BODY_MAX
+
+/-- **`history_lockstep` for the code as written.**  For histories of any length and shape whose messages have
+at most `STREAM_BODY_MAX` bytes each: the statement-by-statement `DryocStream::push` / `pull` behave exactly as
+the total model (same wire, same final state), the pull side accepts everything, returns exactly the pushed
+`(message, tag)` list and ends in the push side's state; nothing is dropped. -/
+theorem historyChecked_lockstep (P : Prims) (hP : WF P) (ops : List Op) (s : State) (hlen : SizesOk ops) :
+    runPushRaw P s ops = runPush P s ops ∧
+    runPullRaw P s (runPushRaw P s ops).2 = some ((runPushRaw P s ops).1, sent ops) ∧
+    (runPushRaw P s ops).2.length = ops.length := by
+  induction ops generalizing s with
+  | nil => exact ⟨rfl, rfl, rfl⟩
+  | cons op ops ih =>
+    have hlen' : SizesOk ops := fun m ad tag h => hlen m ad tag (List.mem_cons_of_mem _ h)
+    cases op with
+    | rekey =>
+      obtain ⟨h1, h2, h3⟩ := ih (rekey P s) hlen'
+      simp only [runPushRaw, runPush, runPullRaw, sent, List.length_cons]
+      exact ⟨by rw [h1], h2, by rw [h3]⟩
+    | push m ad tag =>
+      have hm : m.length ≤ STREAM_BODY_MAX := hlen m ad tag (List.mem_cons_self ..)
+      obtain ⟨c, s', h, hl⟩ := push_ok P hP s m ad tag
+      have ho : objPush P s m ad tag = .ok (c, s') := h
+      have hr : objPushRaw P s m ad tag = .ok (c, s') := by
+        rw [Proofs.SecretStream.objPushRaw_eq_objPush P hP s m ad tag hm]; exact ho
+      have hpl : objPullCode P s c ad = (.ok (m, tag), s') := by
+        rw [Proofs.SecretStream.objPullCode_eq_objPull P s c ad (by omega)]
+        exact objPull_objPush P hP s m ad tag c s' ho
+      obtain ⟨h1, h2, h3⟩ := ih s' hlen'
+      simp only [runPushRaw, runPush, hr, ho, runPullRaw, hpl, sent, List.length_cons]
+      rw [← h1]
+      simp [h2, h3]
+
+/-- the size hypothesis cannot be dropped: a history whose first message has a length in the 64-length window
+sends NOTHING through the code as written (the push panics), while the total model sends it -/
+theorem historyChecked_breaks_near_max (P : Prims) (hP : WF P) (s : State) (m ad : Bytes) (tag : UInt8)
+    (ops : List Op) (h1 : STREAM_BODY_MAX < m.length) (h2 : m.length ≤ MESSAGEBYTES_MAX) :
+    (runPushRaw P s (.push m ad tag :: ops)).2 = [] ∧ (runPush P s (.push m ad tag :: ops)).2 ≠ [] := by
+  have hp := (push_panics_near_max P s m ad tag (zeros (m.length + 17)) (by simp [zeros]) h1 h2).2
+  obtain ⟨c, s', h, _⟩ := push_ok P hP s m ad tag
+  have ho : objPush P s m ad tag = .ok (c, s') := h
+  constructor
+  · simp [runPushRaw, hp]
+  · simp [runPush, ho]
 
 /-! ### 15. non-vacuity witnesses for sections 12–14 -/
 
@@ -794,4 +1024,52 @@ example : ∃ m : Bytes, MESSAGEBYTES_MAX < m.length + 17 ∧ m.length ≤ MESSA
 example : pushChecked toyP toyS 18 [0x41] [0x42] 0 = push toyP toyS 18 [0x41] [0x42] 0 :=
   pushChecked_eq_push toyP toyS 18 [0x41] [0x42] 0 (by decide)
 
+/-- `pushChecked_ok` on the toy instance: the statement-by-statement push into a buffer of garbage agrees with
+both models … -/
+example : ∃ c s', pushRaw toyP toyS (List.replicate 18 0xee) [0x41] [0x42] 0 = .ok (c, s') ∧
+    push toyP toyS 18 [0x41] [0x42] 0 = .ok (c, s') := ⟨_, _, by decide, rfl⟩
+
+/-- … and the window of `push_panics_near_max` / `historyChecked_breaks_near_max` is inhabited (lengths only) -/
+example : ∃ m : Bytes, STREAM_BODY_MAX < m.length ∧ m.length ≤ MESSAGEBYTES_MAX :=
+  ⟨List.replicate MESSAGEBYTES_MAX 0, by rw [List.length_replicate]; decide, by simp⟩
+
+/-- `historyChecked_lockstep`: `SizesOk` holds for the toy history, and the statement-by-statement run agrees -/
+example : SizesOk [.push [1, 2] [3] 0, .rekey, .push [] [] 2] := by
+  intro m ad tag h
+  simp only [List.mem_cons, List.not_mem_nil, or_false, Op.push.injEq, reduceCtorEq, false_or] at h
+  rcases h with ⟨rfl, _, _⟩ | ⟨rfl, _, _⟩ <;> decide
+
+example : runPullRaw toyP toyS (runPushRaw toyP toyS [.push [1, 2] [3] 0, .rekey, .push [] [] 2]).2
+    = some ((runPush toyP toyS [.push [1, 2] [3] 0, .rekey, .push [] [] 2]).1, [([1, 2], 0), ([], 2)]) := by
+  decide +kernel
+
+/-- `skip_states` / `skip_delivery` / `swap_delivery`: hypotheses on a concrete pair of pushes from counter 5
+(no REKEY bit, far from the wrap); the toy MAC looks only at the first 16 bytes of its input, so with a
+16-byte AD the skipped-to ciphertext `c2` IS accepted at `s0` (the `hacc` premise of `skip_delivery` is
+satisfiable, only the MAC stands in the way), while with the nonce-dependent toy primitives `toyPN` below it is
+rejected (the `hrej` premise of `swap_delivery`) and the rest of the swap scenario plays out as stated -/
+def toyS5 : State := { k := zeros 32, nonce := [5, 0, 0, 0] ++ zeros 8 }
+
+example : StateWF toyS5 ∧ ¬ ((0 : UInt8).toNat &&& TAG_REKEY = TAG_REKEY) ∧ le toyS5.counter + 2 < 2 ^ 32 :=
+  ⟨⟨by decide, by decide⟩, by decide, by decide⟩
+
+example : ∃ c1 s1 c2 s2, push toyP toyS5 18 [0x41] (zeros 16) 0 = .ok (c1, s1) ∧
+    push toyP s1 18 [0x42] (zeros 16) 0 = .ok (c2, s2) ∧
+    s1.nonce ≠ toyS5.nonce ∧ s2.nonce ≠ toyS5.nonce ∧ (pull toyP toyS5 [0] 0 c2 (zeros 16)).res = .ok 1 :=
+  ⟨_, _, _, _, rfl, rfl, by decide, by decide, by decide⟩
+
+/-- toy primitives whose key stream depends on the nonce (first counter byte), so that the position matters -/
+def toyPN : Prims where
+  chacha := fun _ n c l => List.replicate l (UInt8.ofNat (c + 1) + n.headD 0)
+  hchacha := fun k _ => k
+  mac := fun k m => List.replicate 16 (k.headD 0 + UInt8.ofNat m.length)
+
+example : ∃ c1 s1 c2 s2, push toyPN toyS5 18 [0x41] [] 0 = .ok (c1, s1) ∧
+    push toyPN s1 18 [0x42] [] 0 = .ok (c2, s2) ∧
+    (pull toyPN toyS5 [0] 0 c2 []).res = .err ∧
+    pull toyPN (pull toyPN toyS5 [0] 0 c2 []).st [0] 0 c1 [] = ⟨.ok 1, [0x41], 0, s1⟩ ∧
+    pull toyPN s1 [0] 0 c2 [] = ⟨.ok 1, [0x42], 0, s2⟩ :=
+  ⟨_, _, _, _, rfl, rfl, by decide, by decide, by decide⟩
+
 end DryocVerif.Properties.C03
+
